@@ -380,7 +380,11 @@ class C10Runner:
 		try:
 			for m, v in (case.get('state') or {}).items():
 				proj.set_variant(m, v, 10**9)
-			for rel, (content, mtime) in library_seed().items():
+			try:
+				seed = library_seed()
+			except RuntimeError:
+				seed = {}  # only an accelerator here: the trees come from the parser, a full run is not needed
+			for rel, (content, mtime) in seed.items():
 				proj.sc.write(rel, content, mtime)
 			rec = sim_process(proj.sc.root, tree_task({**case, 'modules': pool['modules']}), timeout=300)
 			if rec['status'] == 'timeout':
